@@ -1606,6 +1606,12 @@ val sql_reopen : sqlh -> sqlh
 
 val sql_reopen_cfg : sqlh -> bool -> bool -> sqlh
 
+val has_dup_rows : row list -> bool
+
+val sql_set_dups : sqlh -> bool -> sqlh * bool
+
+val sql_set_space : sqlh -> bool -> sqlh
+
 type sop =
 | SAdd of str
 | SGet of nat * sdir
@@ -1613,12 +1619,15 @@ type sop =
 | SSetMax of nat
 | SReopen
 | SReopenCfg of bool * bool
+| SSetDups of bool
+| SSetSpace of bool
 
 type sout =
 | SoBool of bool
 | SoGet of (nat * str) option
 | SoNat of nat
 | SoUnit
+| SoRefused
 
 val sql_step : uData -> sqlh -> sop -> sqlh * sout
 
